@@ -66,8 +66,8 @@ def _r6(ctx):
     # over the option occurrences (a local assigned from self.option("ode-modifier"))
     D = "(?:" + "|".join(map(re.escape, _alias_closure(ih, next((k.value.id for c in ast.walk(ih) if isinstance(c, ast.Call) for k in c.keywords if k.arg == "ode_modifier" and isinstance(k.value, ast.Name)), "ode_modifier")))) + ")"
     Dn = D[3:-1].split("|")[-1]
-    optvars = {t.id for n in ast.walk(ih) if isinstance(n, ast.Assign) and "option('ode-modifier')" in ast.unparse(n.value) for t in n.targets if isinstance(t, ast.Name)}
-    loops = [n for n in ast.walk(ih) if isinstance(n, ast.For) and isinstance(n.iter, ast.Name) and n.iter.id in optvars]
+    from .c20 import _option_origins, _option_loops
+    loops = _option_loops(ih, _option_origins(ih), "ode-modifier")
     if len(loops) != 1:
         ctx.missing("R6", "--ode-modifier loop", (INIT, ih.lineno), f"expected one loop over the --ode-modifier occurrences, found {len(loops)}")
         return
@@ -617,14 +617,13 @@ def _r5(ctx, m):
             k2 |= _str_keys(n)
     sets[(EXAMPLE, "ExampleCommand.handle (reader)")] = k2
     # writer: init.py
-    from .c20 import _init_handle, _option_origins
+    from .c20 import _init_handle, _option_origins, _option_loops
     h = _init_handle(pkg)
     ctx.saw(INIT, "InitCommand.handle")
     k3 = set()
-    org = _option_origins(h)
-    for n in ast.walk(h):
-        # by role: the loop(s) over the occurrences of --ode-modifier
-        if isinstance(n, ast.For) and isinstance(n.iter, ast.Name) and org.get(n.iter.id) == "ode-modifier":
+    # by role: the loop(s) over the occurrences of --ode-modifier
+    for n in _option_loops(h, _option_origins(h), "ode-modifier"):
+        if True:
             for d in ast.walk(n):
                 if isinstance(d, ast.Dict):
                     k3 |= {k.value for k in d.keys if isinstance(k, ast.Constant)}
